@@ -419,11 +419,11 @@ def _c03():
             # with a non-empty history buffer of 2 bytes the Enter oracles do not fit into memory: plain Enter there
             enters = ["key_enter_v%d" % v for v in range(0, n + 1)] if h < 2 else ["enter_plain_v%d" % v for v in range(0, n + 1)]
             for k in ["key_backspace", "key_forward", "key_back", "key_up", "key_down", "key_tab", "key_char1", "key_char2", "api_write_set_prompt", "api_build"] + enters:
-                d = dict(cfg=list(cfg), tags=["C03"], tier=("both" if n == h else "thorough"), bounds="%s: %s from ANY CliInv state; only Kani's own checks (panic, overflow, bounds, pointer validity, unchecked preconditions) are counted" % (b, k), timeout=1500, mem=6)
+                d = dict(cfg=list(cfg), tags=["C03"], tier=("both" if n == h else "thorough"), bounds="%s: %s from ANY CliInv state; only Kani's own checks (panic, overflow, bounds, pointer validity, unchecked preconditions) are counted" % (b, k), timeout=1500, mem=4)
                 if "char" in k:
                     d["nodebug"] = True
                 if "enter" in k:
-                    d["mem"] = 8
+                    d["mem"] = 6
                     d["timeout"] = 2400
                 if k == "enter_plain_v1":
                     d["tier"] = "thorough"
